@@ -22,17 +22,24 @@ Record Hist2 (s : storage) (iss dead : list handle) : Prop := {
   h2_alive : forall e, e ∈ iss -> e ∈ dead \/ e ∈ ents s;
 }.
 
+Section with_ac.
+(** [ac]: whether a transition may clear the event logs (clear_events). Transitions with [ac = false]
+    keep or extend them, which is what "since the last clear" needs (C17). *)
+Context (ac : bool).
+
 Definition same_book (s s' : storage) : Prop :=
-  aid s' = aid s /\ cap s' = cap s /\ slots s' = slots s /\ ents s' = ents s.
+  aid s' = aid s /\ cap s' = cap s /\ slots s' = slots s /\ ents s' = ents s /\
+  created s' = created s /\ destroyed s' = destroyed s.
 
 (** Slots keep their index part and their generations do not decrease (the test hook that presets
     generation counters close to the overflow boundary is such a transition when it raises them). *)
 Definition mono_book (s s' : storage) : Prop :=
   aid s' = aid s /\ cap s' = cap s /\ ents s' = ents s /\
-  forall k x, slots s !! k = Some x -> exists x', slots s' !! k = Some x' /\ s_idx x' = s_idx x /\ (s_ver x <= s_ver x')%N.
+  (forall k x, slots s !! k = Some x -> exists x', slots s' !! k = Some x' /\ s_idx x' = s_idx x /\ (s_ver x <= s_ver x')%N) /\
+  ((created s' = created s /\ destroyed s' = destroyed s) \/ (ac = true /\ created s' = [] /\ destroyed s' = [])).
 
 Lemma same_book_mono s s' : same_book s s' -> mono_book s s'.
-Proof. intros (A & B & C & D). split_and!; try done. intros k x Hx. exists x. rewrite C. split_and!; [done|done|lia]. Qed.
+Proof. intros (A & B & C & D & E & F). split_and!; try done; [|by left]. intros k x Hx. exists x. rewrite C. split_and!; [done|done|lia]. Qed.
 
 Inductive estep (cfg : config) : storage -> storage -> Prop :=
   | es_push s vs s' h : length vs = length (cols s) -> push cfg s vs = Ok s' h -> estep cfg s s'
@@ -69,7 +76,7 @@ Proof. intros HI [HH Hnd Hds Hdg Hal] Hn. constructor; try done. by apply hist_g
 
 Lemma hist2_same s s' iss dead : Inv s -> Hist2 s iss dead -> mono_book s s' -> Hist2 s' iss dead.
 Proof.
-  intros HI [[H1 H2 H3] Hnd Hds Hdg Hal] (Ea & Ec & Ee & Es). constructor; rewrite ?Ee; try done.
+  intros HI [[H1 H2 H3] Hnd Hds Hdg Hal] (Ea & Ec & Ee & Es & _). constructor; rewrite ?Ee; try done.
   constructor; rewrite ?Ea, ?Ec, ?Ee; try done.
   intros e y He Hy. destruct (H1 e He) as (_ & Hc).
   destruct (lookup_lt_is_Some_2 (slots s) (eslot e) ltac:(rewrite (i_lslots s HI); done)) as [x Hx].
@@ -246,13 +253,13 @@ Qed.
 
 Lemma same_book_refl s : same_book s s. Proof. done. Qed.
 Lemma same_book_trans s1 s2 s3 : same_book s1 s2 -> same_book s2 s3 -> same_book s1 s3.
-Proof. intros (A1 & A2 & A3 & A4) (B1 & B2 & B3 & B4). split_and!; congruence. Qed.
+Proof. intros (A1 & A2 & A3 & A4 & A5 & A6) (B1 & B2 & B3 & B4 & B5 & B6). split_and!; congruence. Qed.
 
 Lemma call_closure_book ad acc s i ver delta o s1 ds : wf_access ad acc -> SInv ad s -> i < len s -> in_ver ver ->
   call_closure s i ver delta acc = Some (o, s1, ds) -> SInv ad s1 /\ same_book s s1 /\ len s1 = len s.
 Proof.
   intros Hacc HS Hi Hver Hcc.
-  destruct (call_closure_ok ad acc Hacc s i ver delta HS Hi Hver) as (o' & s1' & ds' & Hcc' & HS1 & E1 & E2 & E3 & E4 & E5 & E6 & _).
+  destruct (call_closure_ok ad acc Hacc s i ver delta HS Hi Hver) as (o' & s1' & ds' & Hcc' & HS1 & E1 & E2 & E3 & E4 & E5 & E6 & E7 & E8 & _).
   rewrite Hcc in Hcc'. injection Hcc' as <- <- <-. split; [done|]. split; [|done].
   destruct HS as (_ & A & _), HS1 as (_ & A1 & _). split_and!; congruence.
 Qed.
@@ -406,7 +413,7 @@ Proof.
   intros HI Hsv Hav Hp Hall. destruct (preset_versions_inv s sv av s' HI Hsv Hav Hp) as (HI' & _).
   apply esteps_one, es_same; [done|]. unfold preset_versions in Hp.
   destruct (negb (len s =? 0) || N.eqb sv 0 || N.eqb av 0); [done|]. destruct (negb (cap s <=? length (slots s))); [done|].
-  injection Hp as <-. split_and!; try done. cbn [slots]. intros k x Hx. exists (Slot (s_idx x) sv).
+  injection Hp as <-. split_and!; try done; [|by left]. cbn [slots]. intros k x Hx. exists (Slot (s_idx x) sv).
   rewrite list_lookup_fmap, Hx. split_and!; [done|done|]. cbn [s_ver].
   rewrite forallb_forall in Hall. apply N.leb_le, Hall. apply elem_of_list_In. by eapply elem_of_list_lookup_2.
 Qed.
@@ -557,18 +564,21 @@ Proof.
   destruct Hnz as [Hsv' Hav']. exact (preset_esteps cfg s sv av s' HI Hsv' Hav' Hp Hok).
 Qed.
 
-Lemma clear_events_esteps cfg ad s : SInv ad s -> esteps cfg s (clear_events s).
-Proof. intros HS. eapply same_book_esteps; [by apply clear_events_SInv|done]. Qed.
-
-Lemma step_clearev_trans cfg d qs st l : RInv d st -> Tr cfg st (step cfg d qs st (OClearEv l)).
+Lemma clear_events_esteps cfg ad s : ac = true -> SInv ad s -> esteps cfg s (clear_events s).
 Proof.
-  intros HR. unfold step; cbv beta iota. destruct (cur_world st) as [w|] eqn:Hcw; [|apply ltrans_refl].
+  intros Hac HS. destruct (clear_events_SInv ad s HS) as (HI' & _). apply esteps_one, es_same; [done|].
+  split_and!; try done; [|by right]. intros k x Hx. exists x. split_and!; [done|done|lia].
+Qed.
+
+Lemma step_clearev_trans cfg d qs st l : ac = true -> RInv d st -> Tr cfg st (step cfg d qs st (OClearEv l)).
+Proof.
+  intros Hac HR. unfold step; cbv beta iota. destruct (cur_world st) as [w|] eqn:Hcw; [|apply ltrans_refl].
   pose proof (RInv_cur d st w HR Hcw) as HW. destruct (negb (events cfg)); [apply ltrans_refl|]. destruct l as [|a].
   - apply (ltrans_set_world cfg st w); [done|]. unfold wtrans. apply Forall2_fmap_r.
     unfold WInv in HW. clear Hcw. induction HW; constructor; [by eapply clear_events_esteps|done].
   - destruct (w !! a) as [s|] eqn:Hs; [|apply ltrans_refl].
     destruct (lookup_lt_is_Some_2 (wd_archs d) a ltac:(rewrite <- (WInv_length d w HW); by eapply lookup_lt_Some)) as [ad Ha].
-    apply (ltrans_set_world cfg st w); [done|]. eapply upd_wtrans; [done|]. eapply clear_events_esteps. by eapply WInv_lookup.
+    apply (ltrans_set_world cfg st w); [done|]. eapply upd_wtrans; [done|]. eapply clear_events_esteps; [done|]. by eapply WInv_lookup.
 Qed.
 
 Lemma step_keyed_trans cfg d qs st o l k t r : keyed_op o = Some (l, k, t, r) -> wf_href r -> RInv d st ->
@@ -609,7 +619,7 @@ Qed.
 Lemma write_col_esteps cfg ad s col i v s' : SInv ad s -> write_col s col i v = Some s' -> esteps cfg s s'.
 Proof.
   intros HS Hw. eapply same_book_esteps; [by eapply write_col_SInv|].
-  destruct (write_col_spec s col i v s' Hw) as (_ & _ & He & Hs & _ & Hc & _ & _ & Ha & _). done.
+  destruct (write_col_spec s col i v s' Hw) as (_ & _ & He & Hs & _ & Hc & _ & _ & Ha & Hcr & Hde & _). done.
 Qed.
 
 Lemma step_write_trans cfg d qs st p b k t r c v : wf_href r -> RInv d st ->
@@ -688,9 +698,10 @@ Qed.
 (** Every step of the run language moves every storage of every persisting world by elementary
     transitions; a new world is fresh or a copy of an existing one; a dropped world stays dropped. *)
 Theorem step_trans cfg d qs st o : wf_decl d -> wf_op d o -> RInv d st -> hist_ok_step st o = true ->
+  match o with OClearEv _ => ac = true | _ => True end ->
   Tr cfg st (step cfg d qs st o).
 Proof.
-  intros Hwf Ho HR Hok. destruct o.
+  intros Hwf Ho HR Hok Hac. destruct o.
   - by apply step_new_trans.
   - by apply step_clone_trans.
   - by apply step_switch_trans.
@@ -716,24 +727,26 @@ Proof.
   - by apply step_simple_trans.
 Qed.
 
+End with_ac.
+
 (* ================================================================ whole runs *)
 
-Lemma esteps_sreach cfg s s' : sreach cfg s -> esteps cfg s s' -> sreach cfg s'.
-Proof. intros (s0 & H0 & Hl & Hs) Hs'. exists s0. split_and!; [done|done|by eapply esteps_trans]. Qed.
+Lemma esteps_sreach cfg s s' : sreach true cfg s -> esteps true cfg s s' -> sreach true cfg s'.
+Proof. intros (s0 & H0 & Hl & Hs) Hs'. exists s0. split_and!; [done|done|by eapply (esteps_trans true)]. Qed.
 
-Lemma wtrans_trans cfg w1 w2 w3 : wtrans cfg w1 w2 -> wtrans cfg w2 w3 -> wtrans cfg w1 w3.
+Lemma wtrans_trans cfg w1 w2 w3 : wtrans true cfg w1 w2 -> wtrans true cfg w2 w3 -> wtrans true cfg w1 w3.
 Proof.
   unfold wtrans. intros H12. revert w3. induction H12 as [|s1 s2 w1 w2 Hs H12 IH]; intros w3 H23; inversion H23; subst; constructor.
-  - by eapply esteps_trans.
+  - by eapply (esteps_trans true).
   - by apply IH.
 Qed.
 
 
 Definition RHist (cfg : config) (d : wdecl) (st : rstate) : Prop :=
-  RInv d st /\ forall i w, worlds st !! i = Some (Some w) -> Forall (sreach cfg) w.
+  RInv d st /\ forall i w, worlds st !! i = Some (Some w) -> Forall (sreach true cfg) w.
 
-Lemma ltrans_rhist cfg l l' : ltrans cfg l l' ->
-  (forall i w, l !! i = Some (Some w) -> Forall (sreach cfg) w) -> forall i w', l' !! i = Some (Some w') -> Forall (sreach cfg) w'.
+Lemma ltrans_rhist cfg l l' : ltrans true cfg l l' ->
+  (forall i w, l !! i = Some (Some w) -> Forall (sreach true cfg) w) -> forall i w', l' !! i = Some (Some w') -> Forall (sreach true cfg) w'.
 Proof.
   intros (Hlen & Hlive & Hdead & Hnew) Hall i w' Hi'. unfold world in *. destruct (decide (i < length l)) as [Hlt|Hge].
   - destruct (lookup_lt_is_Some_2 l i Hlt) as [[w|] Hi].
@@ -751,19 +764,19 @@ Proof.
   intros Hwf. induction ops as [|o ops IH]; intros st st' [HR HS] Hok; cbn [run_to ok_run] in *.
   - by intros [= <-].
   - apply andb_true_iff in Hok as [Hok Hrest]. apply andb_true_iff in Hok as [Hwfo Hho]. apply wf_opb_true in Hwfo.
-    pose proof (step_inv cfg d qs st o Hwf Hwfo HR) as Hinv. pose proof (step_trans cfg d qs st o Hwf Hwfo HR Hho) as Htr.
+    pose proof (step_inv cfg d qs st o Hwf Hwfo HR) as Hinv. pose proof (step_trans true cfg d qs st o Hwf Hwfo HR Hho ltac:(by destruct o)) as Htr.
     destruct (step cfg d qs st o) as [[st1 obs]|]; [|done]. intros Hrun Hn.
     eapply (IH st1); [split; [done|by eapply ltrans_rhist]|done|done|]. by apply (proj1 (proj2 (proj2 Htr))).
 Qed.
 
 Lemma run_to_rhist cfg d qs ops : wf_decl d -> forall st st', RHist cfg d st -> ok_run cfg d qs st ops = true ->
   run_to cfg d qs st ops = Some st' -> RHist cfg d st' /\
-  (forall i w w', worlds st !! i = Some (Some w) -> worlds st' !! i = Some (Some w') -> wtrans cfg w w').
+  (forall i w w', worlds st !! i = Some (Some w) -> worlds st' !! i = Some (Some w') -> wtrans true cfg w w').
 Proof.
   intros Hwf. induction ops as [|o ops IH]; intros st st' [HR HS] Hok; cbn [run_to ok_run] in *.
-  - intros [= <-]. split; [done|]. intros i w w' Hw Hw'. rewrite Hw in Hw'. injection Hw' as <-. apply wtrans_refl.
+  - intros [= <-]. split; [done|]. intros i w w' Hw Hw'. rewrite Hw in Hw'. injection Hw' as <-. apply (wtrans_refl true).
   - apply andb_true_iff in Hok as [Hok Hrest]. apply andb_true_iff in Hok as [Hwfo Hho]. apply wf_opb_true in Hwfo.
-    pose proof (step_inv cfg d qs st o Hwf Hwfo HR) as Hinv. pose proof (step_trans cfg d qs st o Hwf Hwfo HR Hho) as Htr.
+    pose proof (step_inv cfg d qs st o Hwf Hwfo HR) as Hinv. pose proof (step_trans true cfg d qs st o Hwf Hwfo HR Hho ltac:(by destruct o)) as Htr.
     destruct (step cfg d qs st o) as [[st1 obs]|]; [|done]. intros Hrun.
     assert (HH1 : RHist cfg d st1) by (split; [done|by eapply ltrans_rhist]).
     destruct (IH st1 st' HH1 Hrest Hrun) as [HH' Hpath]. split; [done|].
@@ -776,7 +789,7 @@ Qed.
 Lemma rs0_rhist cfg d : RHist cfg d rs0.
 Proof. split; [apply rs0_inv|]. intros i w Hi. by destruct i. Qed.
 
-Lemma wtrans_lookup cfg w w' a s s' : wtrans cfg w w' -> w !! a = Some s -> w' !! a = Some s' -> esteps cfg s s'.
+Lemma wtrans_lookup cfg w w' a s s' : wtrans true cfg w w' -> w !! a = Some s -> w' !! a = Some s' -> esteps true cfg s s'.
 Proof. intros Ht Hs Hs'. by eapply (Forall2_lookup_lr _ _ _ _ _ _ Ht). Qed.
 
 (** C01 for whole histories of the run language (any number of worlds, archetypes, creations,
@@ -804,8 +817,8 @@ Proof.
   destruct (run_to_rhist cfg d qs ops1 Hd rs0 st1 (rs0_rhist cfg d) Hok1 R1) as [HH1 _].
   destruct (run_to_rhist cfg d qs ops2 Hd st1 st2 HH1 Hok2 R2) as [HH2 P12].
   destruct (run_to_rhist cfg d qs ops3 Hd st2 st3 HH2 Hok3 R3) as [HH3 P23].
-  assert (Hr1 : sreach cfg s1). { destruct HH1 as [_ HS]. eapply Forall_lookup_1; [exact (HS i w1 W1)|exact S1]. }
-  eapply (stale_forever cfg s1 s2 s3 e Hw Hr1 Hk He1); [|done|].
+  assert (Hr1 : sreach true cfg s1). { destruct HH1 as [_ HS]. eapply Forall_lookup_1; [exact (HS i w1 W1)|exact S1]. }
+  eapply (stale_forever true cfg s1 s2 s3 e Hw Hr1 Hk He1); [|done|].
   - eapply wtrans_lookup; [exact (P12 i w1 w2 W1 W2)|done|done].
   - eapply wtrans_lookup; [exact (P23 i w2 w3 W2 W3)|done|done].
 Qed.
@@ -824,7 +837,7 @@ Lemma run_two_points cfg d qs ops1 ops2 st1 st2 i a w1 w2 s1 s2 :
   hist_case cfg d qs (ops1 ++ ops2) = true ->
   run_to cfg d qs rs0 ops1 = Some st1 -> run_to cfg d qs st1 ops2 = Some st2 ->
   worlds st1 !! i = Some (Some w1) -> worlds st2 !! i = Some (Some w2) -> w1 !! a = Some s1 -> w2 !! a = Some s2 ->
-  wrapping cfg = false /\ sreach cfg s1 /\ esteps cfg s1 s2.
+  wrapping cfg = false /\ sreach true cfg s1 /\ esteps true cfg s1 s2.
 Proof.
   unfold hist_case. intros Hc R1 R2 W1 W2 S1 S2.
   apply andb_true_iff in Hc as [Hc Hok]. apply andb_true_iff in Hc as [Hw Hd]. apply negb_true_iff in Hw. apply wf_declb_true in Hd.
@@ -846,7 +859,7 @@ Theorem run_create_fresh cfg d qs ops1 ops2 st1 st2 i a w1 w2 s1 s2 e vs s3 h :
 Proof.
   intros Hc R1 R2 W1 W2 S1 S2 He Hvs Hp.
   destruct (run_two_points cfg d qs ops1 ops2 st1 st2 i a w1 w2 s1 s2 Hc R1 R2 W1 W2 S1 S2) as (Hw & Hr & Hs).
-  by eapply (created_never_seen_before cfg s1 s2 vs s3 h e).
+  by eapply (created_never_seen_before true cfg s1 s2 vs s3 h e).
 Qed.
 
 (** C01, acceptance: a handle that was stored at an earlier point is accepted by the slot lookup at a
@@ -861,8 +874,8 @@ Theorem run_accepted_iff_stored cfg d qs ops1 ops2 st1 st2 i a w1 w2 s1 s2 e :
 Proof.
   intros Hc R1 R2 W1 W2 S1 S2 Hk He.
   destruct (run_two_points cfg d qs ops1 ops2 st1 st2 i a w1 w2 s1 s2 Hc R1 R2 W1 W2 S1 S2) as (Hw & Hr & Hs).
-  destruct (sreach_hist2 cfg s1 Hw Hr) as (HI1 & iss1 & dead1 & H1).
-  destruct (esteps_hist2 cfg s1 s2 iss1 dead1 Hw HI1 H1 Hs) as (HI2 & iss2 & dead2 & H2 & S12 & _).
+  destruct (sreach_hist2 true cfg s1 Hw Hr) as (HI1 & iss1 & dead1 & H1).
+  destruct (esteps_hist2 true cfg s1 s2 iss1 dead1 Hw HI1 H1 Hs) as (HI2 & iss2 & dead2 & H2 & S12 & _).
   assert (Hiss : e ∈ iss2). { apply S12. apply elem_of_list_lookup in He as (j & Hj). exact (h_stored s1 iss1 (h2_hist _ _ _ H1) j e Hj). }
   pose proof (issued_accepted_iff_stored cfg s2 iss2 e HI2 (h2_hist _ _ _ H2) Hiss Hk) as Hiff.
   split.
